@@ -42,6 +42,14 @@ state element by its kind name), input port bits, assign pairs and undriven name
     every interface node (output port bit, data pin of a flip-flop / latch that is a primitive state element) is what the module
     observes (`vCaptures`).  `verilog_library_text_end_to_end` — the same for the circuit built from the model's reading of the
     printed module TEXT (`verilog_text_to_nnet`; any layout by `verilog_text_layout_irrelevant`).
+  - `verilog_library_by_name` / `verilog_library_end_to_end_by_name` — **(e) library pins BY NAME** (audit-2 finding 8): `VModelLib`
+    reads the pins of a library instance by INDEX under the pin table `tl`, its data-book function is written over the pin NAMES of
+    the table row; inside `tlFitsB` (below) `VModelLib` IS `VModelLibN` (Model/VerilogLibFit.lean), the denotation in which input `k`
+    of the data-book function is the signal connected to the pin NAMED `(row ty).inNames[k]` and the output NAMED
+    `(row ty).outNames[k]` drives the signal connected to it — no `tl` in the reading of library pins
+    (Proofs/VerilogLibFit.lean `vModelLib_iff_byName`); (d) restated with `VModelLibN`.  The crossed pin table of the audit witness
+    (`exTLx`: every other hypothesis true, index reading `b1 ∨ (a ∧ b2)`) has `tlFitsB = false` (kernel-checked example).
+  - `vArityLib_of_vArity` — `vArityB` (C11) implies the arity domain `vArityLibB` of the capstone.
   - non-vacuity (section `Example`): NANGATE `AOI21_X1` feeding `INV_X1` (real implementation dumps, rows of the generated tables),
     and the same with a flip-flop `DFF` as PRIMITIVE state element in a feedback loop: every hypothesis by `decide +kernel`, the
     theorem applied (from the text; line value resp. captured values = those of the datasheet model the evaluator computes).
@@ -55,7 +63,15 @@ state element by its kind name), input port bits, assign pairs and undriven name
   library-cell node (listed combinational family, implementation acyclic and described by its row of the generated C19 tables,
   ALL input pins connected); `h'.net.sNodes = (verilogNet …).sNodes` (the resolved circuit has the same interface nodes in the
   same order: no implementation adds a state element); `orderOKB` / `forksOKB` / `linesDrivenB` of the resolved circuit and the
-  real topological order; the constant slot of the stimulus holds 0.
+  real topological order; the constant slot of the stimulus holds 0;
+  `tlFitsB (libHas lib) row tl stmts` (audit-2 finding 8; last but one hypothesis of (d) and of the text version): for every library
+  instance the pin table `tl` maps the `k`-th input name of its table row to `(k, input)`, the `k`-th output name to `(k, output)`, and
+  every pin the instance connects is a name of the row — (d) is TRUE without it (the proof does not use it), but only with it is
+  `VModelLib` the reading by pin name (e); `vArityLibB (libHas lib) tl stmts` (known finding D33; last hypothesis; a DOMAIN
+  hypothesis, not used by the proof): every instance that is neither a library cell nor a state element — i.e. stays a simulation
+  primitive — has its connected input pins at indices 0..3; without it a primitive `AND5` next to certified cells is read (by model
+  and simulator alike) as the AND of its first four pins (example `exS5`).  Library instances are exempt (`AOI222` has six pins:
+  their meaning is the data-book function over all pins, realised by the certified implementation circuit).
   NOT covered: sequential library cells (`DFF_X1` … as LIBRARY cells: a flip-flop is covered only as a primitive state element, i.e.
   when its kind is not in `lib`), cells outside the listed families (tri-state, ties, decoders, …), unconnected input pins of
   library instances, Verilog outside `verilogOKB`.
@@ -63,6 +79,10 @@ state element by its kind name), input port bits, assign pairs and undriven name
   inside the hypotheses (counted, tags `library-sem:*`): the model's `σ` (driver `verilogsemlib`: evaluator `vEvalLib`, accepted by
   `vModelLibB`, sound by `verilog_lib_checker_sound`) observed at output ports and state elements == the REAL `LogicSim(m=2)` on the
   REAL parsed + resolved circuit on sampled rows; the model's resolved dump == the real resolved dump.  Mismatch = broken tie.
+  `tlFitsB` and `vArityLibB` are flags 10 and 11 of the driver answer, `tlFitsB` evaluated on the REAL pin table
+  `tlib.cells[kind][1]` the harness sends against the generated table row (tags `library-sem:tlFits=*`, `library-sem:vArityLib=*`;
+  `library-sem:tlExact=*`: the real table has exactly as many entries as the row has pins); a case inside the fragment whose
+  library instances are all certified but with `tlFitsB` or `tlExactB` false = broken tie (`library_sem: pin table`).
   What remains trusted: `describesB` (the dump handed to the model is the implementation whose `SimOps` rows were dumped into the
   tables — evaluated per cell, C10 stream `ds-cert`), the correspondence of `resolveCells` / the parser model with the real code. -/
 namespace KV.C11
